@@ -9,11 +9,12 @@ From VerifGen Require Import Gen.
 
 Definition gen_expects : expects :=
   mkExp Gen.exp_greet Gen.exp_ehlo Gen.exp_helo Gen.exp_mail Gen.exp_rcpt Gen.exp_data Gen.exp_eod
-        Gen.exp_rset Gen.exp_noop Gen.exp_quit.
+        Gen.exp_rset Gen.exp_noop Gen.exp_quit Gen.exp_starttls.
 
 Definition gen_fixes : fixes :=
   mkFx Gen.ssm_write_fail_closes Gen.ssm_data_fail_resets Gen.ssm_rset_fail_closes_mail
-       Gen.ssm_rset_fail_closes_rcpt Gen.ssm_rset_fail_closes_data Gen.is_temp_error_unwraps Gen.esc_regex.
+       Gen.ssm_rset_fail_closes_rcpt Gen.ssm_rset_fail_closes_data Gen.is_temp_error_unwraps Gen.esc_regex
+       Gen.ehlo_replaces_ext.
 
 (* isTempError / errorCode / enhancedStatusCode look at the length of the error text before indexing into it;
    the model's classifiers are total functions that agree with the guarded code on empty and short texts *)
@@ -26,6 +27,6 @@ Definition std_reasons : list bytes :=
    bs "ErrSMTPDataClose"; bs "ErrSMTPReset"; bs "ErrWriteContent"; bs "ErrConnCheck"; bs "ErrNoUnencoded";
    bs "ErrAmbiguous"].
 
-Definition run_gen (cfg : config) (caps : list ext) (script : list decision) (ms : list msg)
+Definition run_gen (cfg : config) (caps caps_tls : list ext) (script : list decision) (ms : list msg)
            (render : msg -> list bytes * option err) : outcome :=
-  run_case gen_expects gen_fixes cfg caps script ms render.
+  run_case gen_expects gen_fixes cfg caps caps_tls script ms render.
